@@ -111,7 +111,8 @@ class C04(core.Check):
                                        'means:org', 'means:zone-org', 'means:memzone', 'means:zerountil', 'means:predefined',
                                        'means:align', 'means:created-zone', 'order:ascending', 'order:descending',
                                        'order:interleaved', 'overlap:non-adjacent', 'expect:REJECT', 'expect:ACCEPT',
-                                       'output:bin', 'output:nobin', 'output:both', 'window-excludes-the-overlap']}
+                                       'output:bin', 'output:nobin', 'output:both', 'window-excludes-the-overlap',
+                                       'means:macro-with-non-byte-steps']}
 
     def build(self, rng, items, means_list=None, order=None, mute=None, out_mode=None):
         """items: [(addr, len)]"""
@@ -235,6 +236,35 @@ class C04(core.Check):
             yield self.build(rng, items, None, None)
             items = [(5, 6), (7, 0), (8 + i % 2, 2)]       # zero-length between: must not hide the real predecessor
             yield self.build(rng, items, ['org', 'org', 'org'], 'ascending')
+        # a macro whose steps are not whole bytes occupies the bytes its steps are padded to (not the packed bit count):
+        # a line on any of those addresses overlaps it, the first address after them does not
+        from vf.oracles import c10
+        for endian in ('big', 'little'):
+            isa_m = c10.base_isa(endian)
+            isa_m['macros'] = {'mq2': [{'instructions': ['q4', 'q4']}], 'mq3': [{'instructions': ['q4', 'q12 7', 'q4']}],
+                               'mq1': [{'instructions': ['q12 $21', 'q12 $43']}]}
+            sizes = {'mq2': (2, '9090'), 'mq3': (4, '90607090'), 'mq1': (4, '62106430')}
+            fn_m, text_m = isamod.render_isa(isa_m, 'json')
+            for mac, (sz, hexb) in sizes.items():
+                for at in range(0, sz + 2):
+                    for order in ('macro-first', 'macro-last'):
+                        a0 = 2
+                        other = a0 + at - 1               # from one below the macro to one past its end
+                        lines_ = [f'.org {a0}', mac] if order == 'macro-first' else []
+                        lines_ += [f'.org {other}', '.byte $AA']
+                        if order == 'macro-last':
+                            lines_ += [f'.org {a0}', mac]
+                        overlap = a0 <= other < a0 + sz
+                        M_ = {a0 + i: int(hexb[2 * i:2 * i + 2], 16) for i in range(sz)}
+                        M_[other] = 0xAA
+                        end_ = a0 + sz + 3
+                        yield {'runs': [{'files': {fn_m: text_m, 'p.asm': '\n'.join(lines_) + '\n'},
+                                         'argv': ['compile', '-c', fn_m, 'p.asm', '-o', 'out.bin', '-e', str(end_)],
+                                         'probes': ['steps'], 'step_limit': 300000}],
+                               'meta': {'kind': 'REJECT' if overlap else 'ACCEPT', 'M': {str(k): v for k, v in M_.items()}, 'end': end_,
+                                        'intervals': [[a0, sz], [other, 1]], 'out_mode': 'bin'},
+                               'tags': sorted({'means:macro-with-non-byte-steps', 'expect:' + ('REJECT' if overlap else 'ACCEPT'), 'output:bin',
+                                               'order:ascending' if (other >= a0) == (order == 'macro-first') else 'order:descending'})}
         n = 400 if tier == 'quick' else 12000
         for i in range(n):
             rng = core.rng_for(seed, self.pid, 'rand', i)
